@@ -1,11 +1,13 @@
 package main
 
 import (
+	"encoding/hex"
 	"fmt"
 	"io/ioutil"
 	"math/rand"
 	"os"
 	"path/filepath"
+	"regexp"
 	"sort"
 	"strings"
 	"sync"
@@ -13,6 +15,7 @@ import (
 	"github.com/Oneledger/protocol/action"
 	govact "github.com/Oneledger/protocol/action/governance"
 	"github.com/Oneledger/protocol/data/governance"
+	"github.com/ethereum/go-ethereum/rlp"
 
 	"olverif/internal/drive"
 	"olverif/internal/gen"
@@ -34,9 +37,34 @@ func projKeep(calls []proto.Call, keep map[string]bool) []string {
 		if c.M == "DeliverTx" && keep != nil && !keep[c.TxHash] {
 			continue
 		}
-		out = append(out, hist.Project([]proto.Call{c})...)
+		for _, l := range hist.ProjectResults([]proto.Call{c}) {
+			out = append(out, logAttr.ReplaceAllStringFunc(l, blankLogBlockHash))
+		}
 	}
 	return out
+}
+
+var logAttr = regexp.MustCompile(`tx\.logs\.[0-9]+=hex:[0-9a-f]+`)
+
+// blankLogBlockHash: an EVM log attribute is the RLP list (address, topics, data, block number, tx hash, tx
+// index, block hash, log index, removed); the block hash necessarily differs between a block and the same
+// block without its failed transactions, everything else is part of the transaction's result.
+func blankLogBlockHash(attr string) string {
+	i := strings.Index(attr, "=hex:")
+	raw, err := hex.DecodeString(attr[i+5:])
+	if err != nil {
+		return attr
+	}
+	var fields []rlp.RawValue
+	if rlp.DecodeBytes(raw, &fields) != nil || len(fields) != 9 {
+		return attr
+	}
+	fields[6] = rlp.RawValue{0x80}
+	out, err := rlp.EncodeToBytes(fields)
+	if err != nil {
+		return attr
+	}
+	return attr[:i+5] + hex.EncodeToString(out)
 }
 
 // ---------------------------------------------------------------- C06
@@ -47,7 +75,7 @@ func projKeep(calls []proto.Call, keep map[string]bool) []string {
 func checkC06(tier string) int {
 	r := verdict.New("C06", tier, "exploration")
 	r.Rule = "seeded mixed histories with a byzantine proposer (transactions refused by admission are delivered anyway; gas limits drawn below the handler's consumption; conflicting pairs) run on a leader and on a twin that receives each block without the transactions that failed on the leader; a case is one block; non-trivial = the block contained at least one failed transaction; distinct by (seed, height, set of failed tx hashes)"
-	r.Assumptions = []string{"MaxGas = -1 (as in the repository's genesis generator), so the block's running gas total has no other effect", "event fields and block hashes are not compared"}
+	r.Assumptions = []string{"MaxGas = -1 (as in the repository's genesis generator), so the block's running gas total has no other effect", "block hashes are not compared (the twin's blocks differ by construction)"}
 	nh := tierN(tier, 6, 50)
 	blocks := tierN(tier, 36, 120)
 	seed := verdict.Seed()
